@@ -448,12 +448,16 @@ class WebVTTWriter(BaseWriter):
                 # TODO: Refactor pycaption and eliminate the concept of a
                 # "Style node"
             elif node.type_ == CaptionNode.BREAK:
+                line_end = ""
                 if i > 0 and nodes[i - 1].type_ != CaptionNode.TEXT:
-                    s += "&nbsp;"
+                    line_end += "&nbsp;"
                 if i == 0:  # cue text starts with a break
-                    s += "&nbsp;"
-                s += "\n"
-                pending_tags = ""
+                    line_end += "&nbsp;"
+                line_end += "\n"
+                s += line_end
+                # A break right after opening tags stays with them: should
+                # the text that follows start a new cue, they all move there
+                pending_tags = pending_tags + line_end if pending_tags else ""
 
         if s:
             layout_groups.append((s, current_layout))
